@@ -91,6 +91,108 @@ def _attr_sources(term):
     return srcs, other
 
 
+def size_only(e, fnode, mod, depth=0, seen=None):
+    """The integer expression `e` of function `fnode` is computed only from sizes of objects that already exist in memory: constants,
+    `len(..)`, `+ - //`, `max/min` (also over a generator of such), conditional expressions, `range()` indices, local names ALL of whose
+    bindings are such expressions, parameters for which EVERY call site in the module passes such an expression, and calls of
+    module functions ALL of whose `return`s are such.  No number decoded from the input (`int()`, attribute / struct values, products)
+    can reach it: a repetition with such a count allocates at most what the data already occupies (padding rows to the width of the
+    widest materialised row).  Flow-insensitive and deliberately narrow: anything else -> False (the obligation stays as it was)."""
+    seen = set() if seen is None else seen
+    if depth > 8 or e is None:
+        return False
+    if isinstance(e, ast.Constant):
+        return isinstance(e.value, int) and not isinstance(e.value, bool)
+    if isinstance(e, ast.BinOp) and isinstance(e.op, (ast.Add, ast.Sub, ast.FloorDiv)):
+        return size_only(e.left, fnode, mod, depth + 1, seen) and size_only(e.right, fnode, mod, depth + 1, seen)
+    if isinstance(e, ast.UnaryOp) and isinstance(e.op, (ast.USub, ast.UAdd)):
+        return size_only(e.operand, fnode, mod, depth + 1, seen)
+    if isinstance(e, ast.IfExp):
+        return size_only(e.body, fnode, mod, depth + 1, seen) and size_only(e.orelse, fnode, mod, depth + 1, seen)
+    if isinstance(e, ast.Call) and isinstance(e.func, ast.Name):
+        if e.func.id == "len" and len(e.args) == 1 and not e.keywords:
+            return True
+        if e.func.id in ("max", "min") and e.args:
+            ok = True
+            for a in e.args:
+                if isinstance(a, (ast.GeneratorExp, ast.ListComp)):
+                    ok = ok and not any(isinstance(x, ast.NamedExpr) for x in ast.walk(a)) and size_only(a.elt, fnode, mod, depth + 1, seen)
+                else:
+                    ok = ok and size_only(a, fnode, mod, depth + 1, seen)
+            return ok and all(k.arg == "default" and size_only(k.value, fnode, mod, depth + 1, seen) for k in e.keywords)
+        g = mod.functions.get(e.func.id)
+        if g is not None and g is not fnode and ("fn", e.func.id) not in seen:
+            seen = seen | {("fn", e.func.id)}
+            rets = [x for x in _own_nodes(g) if isinstance(x, ast.Return)]
+            if any(isinstance(x, (ast.Yield, ast.YieldFrom)) for x in _own_nodes(g)) or not rets:
+                return False
+            return all(size_only(r.value, g, mod, depth + 1, seen) for r in rets)
+        return False
+    if isinstance(e, ast.Name):
+        key = ("name", id(fnode), e.id)
+        if key in seen:
+            return True            # a cycle (`w = w - 1`) adds nothing new
+        seen = seen | {key}
+        params = [a.arg for a in fnode.args.posonlyargs + fnode.args.args + fnode.args.kwonlyargs]
+        binds, ok_target = [], True
+        for x in _own_nodes(fnode):
+            if isinstance(x, ast.Assign) and any(isinstance(t, ast.Name) and t.id == e.id for t in x.targets):
+                binds.append(x.value)
+            elif isinstance(x, ast.AnnAssign) and isinstance(x.target, ast.Name) and x.target.id == e.id and x.value is not None:
+                binds.append(x.value)
+            elif isinstance(x, ast.AugAssign) and isinstance(x.target, ast.Name) and x.target.id == e.id:
+                if not isinstance(x.op, (ast.Add, ast.Sub, ast.FloorDiv)):
+                    return False
+                binds.append(x.value)
+            elif isinstance(x, (ast.For, ast.comprehension)) and isinstance(x.target, ast.Name) and x.target.id == e.id:
+                it = x.iter
+                if isinstance(it, ast.Call) and isinstance(it.func, ast.Name) and it.func.id == "range" and it.args and not it.keywords:
+                    binds.extend(it.args)
+                else:
+                    return False
+            elif isinstance(x, ast.Name) and x.id == e.id and isinstance(x.ctx, ast.Store):
+                par = None
+                # any other binding form (tuple unpacking, with-as, walrus, except-as): not followed
+                ok_target = ok_target and any(isinstance(y, (ast.Assign, ast.AnnAssign, ast.AugAssign, ast.For, ast.comprehension)) and
+                                              (x in (getattr(y, "targets", None) or [getattr(y, "target", None)])) for y in _own_nodes(fnode))
+        if not ok_target:
+            return False
+        if e.id in params:
+            k = params.index(e.id)
+            sites = []
+            for q, g in mod.functions.items():
+                for c in _own_nodes(g):
+                    if isinstance(c, ast.Call) and isinstance(c.func, ast.Name) and mod.functions.get(c.func.id) is fnode:
+                        sites.append((g, c))
+            if not sites:
+                return False
+            for (g, c) in sites:
+                if any(isinstance(a, ast.Starred) for a in c.args) or any(kw.arg is None for kw in c.keywords):
+                    return False
+                actual = c.args[k] if k < len(c.args) else next((kw.value for kw in c.keywords if kw.arg == e.id), None)
+                if actual is None:
+                    d = fnode.args.defaults
+                    pos = fnode.args.posonlyargs + fnode.args.args
+                    j = k - (len(pos) - len(d))
+                    actual = d[j] if 0 <= j < len(d) and k < len(pos) else None
+                if actual is None or not size_only(actual, g, mod, depth + 1, seen):
+                    return False
+        elif not binds:
+            cst = mod.assigns.get(e.id)
+            return isinstance(cst, ast.Constant) and isinstance(cst.value, int) and not isinstance(cst.value, bool)
+        return all(size_only(b, fnode, mod, depth + 1, seen) for b in binds)
+    return False
+
+
+def _own_nodes(fnode):
+    stack = list(ast.iter_child_nodes(fnode))
+    while stack:
+        n = stack.pop()
+        yield n
+        if not isinstance(n, (ast.FunctionDef, ast.AsyncFunctionDef, ast.Lambda, ast.ClassDef)):
+            stack.extend(ast.iter_child_nodes(n))
+
+
 class AmpExecutor(readfile.ReadFileExecutor):
     """Adds the amplification obligation at every repetition with a symbolic count."""
 
@@ -263,6 +365,19 @@ class AmpExecutor(readfile.ReadFileExecutor):
                     nt = ops.int_term(n) if isinstance(n, VInt) else z3.Int(fresh_name("int_of_unknown"))
                     srcs, unknown_src = _attr_sources(nt)
                     goal = nt <= REPEAT_CAP
+                    if unknown_src and not srcs:
+                        # a count without input provenance in the model: decide on the real AST whether it is made of sizes of
+                        # existing objects only (then the repetition is bounded by what is already in memory)
+                        cnt_node = node.right if (seq is a) else node.left
+                        if isinstance(node, ast.AugAssign):
+                            cnt_node = node.value
+                        cur = self.cur_fn_stack[-1] if self.cur_fn_stack else None
+                        try:
+                            if cur is not None and isinstance(cnt_node, ast.AST) and size_only(cnt_node, cur, self.module):
+                                goal = z3.BoolVal(True)
+                                unknown_src = []
+                        except RecursionError:
+                            pass
                     if unknown_src:
                         goal = z3.Or(goal, NOTDEF)      # a count of unknown origin (result of an unmodelled call, a joined value)
                     key = "repeat-site" + (f"[{'+'.join(sorted(srcs))}]" if srcs else "")
@@ -744,7 +859,7 @@ def _native_scope(which):
 
 def _extra():
     from contracts import c12_cost
-    return [_native_scope("explicit-limits"), _native_scope("repeat-attribute-classes"), _native_scope("zip-bomb-classes"), _cost("guard_exemptions"), policy, _cost("self_suffix_obligations"), _cost("xml_policy"), _cost("nested_scan_obligations")] + [_carve_task(k) for k in c12_cost.carve_tasks()]
+    return [_native_scope("explicit-limits"), _native_scope("repeat-attribute-classes"), _native_scope("zip-bomb-classes"), _cost("guard_exemptions"), _cost("rescan_obligations"), policy, _cost("self_suffix_obligations"), _cost("xml_policy"), _cost("nested_scan_obligations")] + [_carve_task(k) for k in c12_cost.carve_tasks()]
 
 
 EXTRA = _extra()
@@ -759,6 +874,13 @@ def known_findings(kf, violations, repo, tier):
     out = []
     vio_ids = {v["id"] for v in violations}
     for f in kf:
+        if f.get("replay") == "obligation":
+            # the finding's witness replay IS the native replay of its obligation (same amplifier), which this run has already made:
+            # the finding still fails exactly when that replay reproduced (the obligation is among the violations)
+            still = f["obligation"] in vio_ids
+            out.append({"finding": f["id"], "still_fails": still, "line": f"{f['id']}: {f['what']}", "covers": [f["obligation"]] if still else [],
+                        "witness_replay": "see the replay of the obligation"})
+            continue
         req = {"property": "C12", "obligation": f["obligation"], "known_finding": f["id"], "witness": f.get("witness"), "repo": repo}
         try:
             p = subprocess.run(["/venv/bin/python", os.path.join(os.path.dirname(os.path.dirname(os.path.abspath(__file__))), "replay", "run.py")],
